@@ -169,6 +169,55 @@ def aim_stream_pos(cursor, qlen, target):
     return None
 
 
+# --------------------------------------------------------------------------- CRC linearity (finding F8)
+def linear_tail(d4):
+    """8 bytes d ++ rawcrc(d): appending them to any data gives the same CRC-32 as appending 8 zero bytes
+    (CRC-32 is affine), so a torn write that loses exactly these bytes is not detected"""
+    raw = zlib.crc32(d4, 0xFFFFFFFF) ^ 0xFFFFFFFF
+    return d4 + raw.to_bytes(4, "little")
+
+
+def zero_tail_variant(tok, rec):
+    """is the recovered record (pos, len, hash) the appended payload `tok` with a zero-filled tail of equal CRC?"""
+    b = payload_bytes(tok)
+    if len(b) != rec[1]:
+        return False
+    c = zlib.crc32(b)
+    for k in range(max(0, len(b) - 64), len(b) - 3):
+        v = b[:k] + bytes(len(b) - k)
+        if v != b and zlib.crc32(v) == c and "%08x" % fnv32(v) == rec[2]:
+            return True
+    return False
+
+
+def explained_by_linear_tail(R, want, cmds):
+    """R equals `want` except for records that are zero-tail variants (equal CRC) of the appended ones"""
+    if set(R) != set(want):
+        return False
+    appended = {}
+    ref = RefMap()
+    for cmd in cmds:
+        t = split_cmd(cmd)
+        if t and t[0] in MUT:
+            res = apply_ref(ref, t)
+            if t[0] == "append" and res[0] == "ok" and res[1] is not None:
+                n = len(t) - 3
+                for k in range(n):
+                    appended[(show_name(name_bytes(t[1])), res[1] - n + 1 + k)] = t[3 + k]
+    found = False
+    for q in want:
+        (wr, wn), (rr, rn) = want[q], R[q]
+        if wn != rn or len(wr) != len(rr):
+            return False
+        for a, b in zip(wr, rr):
+            if a == b:
+                continue
+            if a[0] != b[0] or (q, a[0]) not in appended or not zero_tail_variant(appended[(q, a[0])], b):
+                return False
+            found = True
+    return found
+
+
 class TwoPass(PropBase):
     """base histories are run once on the real crate; cases are derived from their traces"""
     base_quick = 24
@@ -267,6 +316,19 @@ class C02(TwoPass):
                 self.stats["torn_writes"] = self.stats.get("torn_writes", 0) + 1
         return out
 
+    known_shape = "crc-linear-tail"
+
+    def generate(self, n=None, tag="g"):
+        cases = TwoPass.generate(self, n, tag)
+        # finding F8, re-confirmed on every run: a payload whose last 8 bytes are d ++ rawcrc(d); the write is
+        # cut exactly before them (events: open 0-4, create 5-8, the append's single write is event 9)
+        for k, d4 in enumerate([b"\x01\x00\x00\x00", b"abcd"]):
+            pl = mrl.gen_payload(100 + 17 * k, 4) + linear_tail(d4)
+            total = 7 + 11 + 1 + 12 + len(pl)
+            cases.append(("lintail%d" % k, ["open af", "create =q", "append =q - x%s" % pl.hex(),
+                                            "crash 9 %d" % (total - 8), "open af", "drop", "open af"]))
+        return cases
+
     def oracle(self, cid, cmds, tr):
         vs = []
         ci = next((i for i, c in enumerate(cmds) if c.startswith("crash ")), None)
@@ -280,6 +342,11 @@ class C02(TwoPass):
             j = len(prefix)
         o = tr[ci + 1]
         out = outcome_of(o)
+        if out == "out open ok" and j < len(prefix) and logical(obs_of(o)) not in (ref_obs(states[j]), ref_obs(states[j + 1])) \
+                and explained_by_linear_tail(logical(obs_of(o)), ref_obs(states[j + 1]), prefix):
+            vs.append({"msg": "crash inside the write of cmd %d `%s...`: the torn-off tail of the payload has the CRC of zeros (CRC-32 is affine): open returns the record with a zero-filled tail, which was never appended" % (
+                j, prefix[j][:40]), "shape": "crc-linear-tail", "shrinkable": False})
+            return vs
         if out != "out open ok":
             vs.append({"msg": "open of the crash image (cut before event %d, in cmd %d `%s`) failed: %r" % (
                 cut, j, prefix[j] if j < len(prefix) else "-", out), "shape": "crash-open-failed"})
@@ -316,6 +383,17 @@ class C02(TwoPass):
 # =========================================================================== C03
 class C03(TwoPass):
     pid = "C03"
+    known_shape = "crc-linear-tail"
+
+    def generate(self, n=None, tag="g"):
+        cases = TwoPass.generate(self, n, tag)
+        pl = mrl.gen_payload(90, 6) + linear_tail(b"\x07\x00\x01\x02")
+        total = 7 + 11 + 1 + 12 + len(pl)
+        # Always(FlushAndFsync): the append's single write is event 9 (open 0-4, create 5-8)
+        cases.append(("lintail0_c9_%d_c" % (total - 8), ["open as", "create =q", "append =q - x%s" % pl.hex(),
+                                                         "crash 9 %d" % (total - 8), "open af"]))
+        return cases
+
     prefixes = ("out", "ev", "q", "r", "lr", "ls")
     policies = ["no", "dif", "dis", "af", "as", "no", "dif"]
     rule = ("base histories under every policy (DoNothing, OnDelay with an interval longer than the run, Always(Flush), Always(FlushAndFsync)) "
@@ -386,6 +464,11 @@ class C03(TwoPass):
         hi = min(j + 1, len(prefix))
         for m in range(hi, p - 1, -1):
             if loose_match(R, states[m], prefix[m:hi]):
+                return vs
+        for m in range(hi, p - 1, -1):
+            if explained_by_linear_tail(R, ref_obs(states[m]), prefix[:m]):
+                vs.append({"msg": "%s before event %d: a torn-off payload tail has the CRC of zeros (CRC-32 is affine): a record with a zero-filled tail, never appended, is recovered" % (
+                    cmds[ci].split()[0], cut), "shape": "crc-linear-tail", "shrinkable": False})
                 return vs
         vs.append({"msg": "%s before event %d (in cmd %d): calls up to #%d were persisted, but the recovered state %r matches no state from #%d to #%d (state at the persist point: %r)" % (
             cmds[ci].split()[0], cut, j, p, summarize(R), p, hi, summarize(ref_obs(states[p]))), "shape": "persisted-lost"})
@@ -1273,6 +1356,16 @@ class C11(TwoPass):
 # =========================================================================== C12
 class C12(TwoPass):
     pid = "C12"
+    known_shape = "crc-linear-tail"
+
+    def generate(self, n=None, tag="g"):
+        cases = TwoPass.generate(self, n, tag)
+        last = mrl.gen_payload(40, 8) + linear_tail(b"\x10\x20\x30\x40")
+        total = 7 + 11 + 1 + (12 + 5) + (12 + 9) + (12 + len(last))
+        cases.append(("lintail_B2_c9", ["open af", "create =q", "append =q - 5:1 9:2 x%s" % last.hex(),
+                                        "crash 9 %d" % (total - 8), "open af"]))
+        return cases
+
     prefixes = ("out", "ev", "q", "r", "lr")
     policies = ["af", "as"]
     rule = ("base histories followed by one batch append of 2-6 records whose total size is {small, about a block, three blocks, more than a file} at an aimed alignment, then 0-3 further "
@@ -1403,6 +1496,13 @@ class C12(TwoPass):
         got = obs_of(o).get(show_name(name_bytes(toks[1])))
         have = set(got["recs"]) if got else set()
         present = [b for b in batch if b in have]
+        got_by_pos = {r[0]: r for r in (got["recs"] if got else [])}
+        for k, b in enumerate(batch):
+            r = got_by_pos.get(b[0])
+            if r is not None and r != b and zero_tail_variant(toks[3 + k], r):
+                vs.append({"msg": "batch of cmd %d: record %d is recovered with a zero-filled tail that was never appended: its torn-off tail has the CRC of zeros (CRC-32 is affine)" % (bi, b[0]),
+                           "shape": "crc-linear-tail", "shrinkable": False})
+                return vs
         if not present:
             return vs
         # must be a suffix of the batch ...
